@@ -29,6 +29,73 @@ def count(c):
     c.replay("code", code=REPLAY)
 
 
+# ---- which form the filters select with gettext's NullTranslations (callee contracts written
+# ---- from the gettext documentation: gettext(m) = m, pgettext(c, m) = m,
+# ---- ngettext(s, p, n) = s if n == 1 else p, npgettext(c, s, p, n) likewise)
+
+def _null_translations(c):
+    mod = load.get_module(TR)
+    stubs = {}
+    for name, fn in (("gettext", lambda a: a[0]), ("pgettext", lambda a: a[1]), ("ngettext", None), ("npgettext", None)):
+        stubs[name] = VFunc(ast.parse(f"def null_{name}(*a): pass").body[0], mod, None, f"null_{name}", None)
+
+    def plural_form(offset):
+        def f(eng, st, a, k):
+            s_, p_, n_ = a[offset], a[offset + 1], a[offset + 2]
+            n = eng.num_term(n_)
+            st.log.append(("plural-call", n))
+            return [(st, VStr(z3.If(n == 1, unbox_s(s_), unbox_s(p_))))]
+        return f
+    c.summary(TR + ":null_gettext", lambda eng, st, a, k: [(st, a[0])])
+    c.summary(TR + ":null_pgettext", lambda eng, st, a, k: [(st, a[1])])
+    c.summary(TR + ":null_ngettext", plural_form(0))
+    c.summary(TR + ":null_npgettext", plural_form(1))
+    return c.obj("gettext:NullTranslations", "null_translations", **stubs)
+
+
+def unbox_s(v):
+    if isinstance(v, VStr):
+        return v.t
+    return U.s(box(v))
+
+
+for _with_ctx in (False, True):
+    def _mkt(with_ctx):
+        @contract(TR + ":Translate.__call__", prop="C26", name=f"t-filter[message-context={with_ctx}]")
+        def tcall(c):
+            env = mk_env(c, autoescape=VBool(z3.BoolVal(False)))
+            ctx = mk_ctx(c, env)
+            left, plural = c.str("message"), c.str("plural_message")
+            count = c.any("count")
+            c.requires(z3.Or(U.is_none(count.t), U.is_int(count.t), U.is_bool(count.t)), "count: an integer, a boolean or absent")
+            has_plural = c.bool("plural_given")
+            self = c.obj(TR + ":Translate", "t", autoescape_message=c.bool("autoescape_message"), message_interpolation=VBool(z3.BoolVal(False)), translations_var=c.str("tv"), default_translations=NONE)
+            tr = _null_translations(c)
+            c.summary(TR + ":BaseTranslateFilter._resolve_translations", lambda eng, st, a, k: [(st, tr)])
+            mc = [c.str("message_context")] if with_ctx else []
+
+            def entry(eng, cc, func):
+                outs = []
+                for s, given in eng.branch(cc.st, has_plural.t):
+                    kw = {"context": ctx, "count": count}
+                    if given:
+                        kw["plural"] = plural
+                    outs.extend(eng.run(func, s, [left] + mc, kw, self_val=self))
+                return outs
+            c.entry = entry
+            n_given = U.is_int(count.t)
+
+            def post(r):
+                res = unbox_s(r.value)
+                use_plural = z3.And(has_plural.t, n_given, U.i(count.t) != 1)
+                return res == z3.If(use_plural, plural.t, left.t)
+            c.ensures("selects-the-plural-message-exactly-when-a-plural-and-a-count-other-than-1-are-given", post)
+            c.raises()
+            c.assume_note("gettext.NullTranslations: gettext(m) = m; pgettext(c, m) = m; ngettext(s, p, n) = s if n == 1 else p; npgettext likewise (Python documentation)")
+            c.replay("code", code=REPLAY)
+    _mkt(_with_ctx)
+
+
 @structural("C26", "substitution-shape")
 def substitution_shape():
     """format_message of the filters substitutes ONLY regex matches of %(name)s (re_vars.sub)
